@@ -242,17 +242,25 @@ def run_pair(driver, model, argv, tag, timeout=1500, env=None):
     os.makedirs(WORK, exist_ok=True)
     impl_path = os.path.join(WORK, tag + ".impl")
     model_path = os.path.join(WORK, tag + ".model")
+    hung = False
     with open(impl_path, "w") as fh:
-        p = subprocess.run([driver] + argv, stdout=fh, stderr=subprocess.PIPE, text=True, timeout=timeout,
-                           env=env)
-    res = {"tag": tag, "argv": argv, "impl_path": impl_path, "driver_rc": p.returncode,
-           "driver_err": p.stderr[-3000:], "mismatch": [], "viol": [], "cases": [], "dist": {}}
+        try:
+            p = subprocess.run([driver] + argv, stdout=fh, stderr=subprocess.PIPE, text=True, timeout=timeout,
+                               env=env)
+            rc, err = p.returncode, p.stderr
+        except subprocess.TimeoutExpired as e:
+            # the implementation under the driver did not come back: reported as a broken correspondence
+            hung, rc = True, "timeout"
+            err = "driver did not terminate within %d s (the code under test hangs or is far slower than on the unchanged tree)\n%s" % (
+                timeout, (e.stderr or b"")[-1500:] if isinstance(e.stderr, (bytes, str)) else "")
+    res = {"tag": tag, "argv": argv, "impl_path": impl_path, "driver_rc": rc,
+           "driver_err": str(err)[-3000:], "mismatch": [], "viol": [], "cases": [], "dist": {}}
     text = open(impl_path).read()
     cases, dist, summary = parse_stream(text)
     res["cases"], res["dist"], res["summary"] = cases, dist, summary
-    if p.returncode != 0 or not summary:
+    if rc != 0 or not summary:
         res["crashed"] = True
-    if model is not None:
+    if model is not None and not hung:
         with open(impl_path) as fin, open(model_path, "w") as fout:
             pm = subprocess.run([model], stdin=fin, stdout=fout, stderr=subprocess.PIPE, text=True, timeout=timeout)
         if pm.returncode != 0:
